@@ -2,8 +2,10 @@ package props
 
 import (
 	"bytes"
+	"compress/gzip"
 	"context"
 	"fmt"
+	"io"
 	"os"
 	"path/filepath"
 	"strconv"
@@ -20,16 +22,16 @@ import (
 func init() {
 	Registry["C08"] = RunC08
 	Metas["C08"] = Meta{
-		Rule: "episode = one app.FS handler (AcceptByteRange on/off, IndexNames, GenerateIndexPages, strip-prefix rewrite, CacheDuration 20ms..1s) plus a ctx.File route over a directory tree with files of length 0,1,2,10,4095,4096,4097,8191,8192,8193,24576 (small/big-file threshold) and bait files outside the root; 2..5 simulated connections, each 1..4 GET/HEAD requests with Range from the whole syntactic family (a-b, a-, -n, -0, empty, reversed, beyond EOF, overflowing, non-numeric, multi-range), If-Modified-Since, traversal attempts; the scheduler interleaves all connections on the shared file cache, stalls a reader of a streamed big-file response for longer than CacheDuration (the cleaner runs while the reader is open), lets the fake clock cross the cache deadline between requests, requests the same big file concurrently with different ranges, resets a client mid-body. Oracle: RFC 7233 single-range model over the known file bytes. Non-trivial: >= 2 connections with overlapping requests or a stall/reset fired; distinct = abstract signature (file class, range class, method, config, fault).",
-		Real: []string{"app.FS / fsHandler.handleRequest, openFSFile, cache + cleaner goroutine, fsSmallFileReader, bigFileReader (reader reuse), ParseByteRange, ServeFile", "ResponseHeader.SetContentRange", "http1.Server.Serve, resp.Write/writeBodyStream", "standard.Conn", "operating-system files (real directory tree, fixed mtimes)"},
-		Stub: []string{"TCP (SimConn)", "peers (scripted actors)", "transporter accept loop (stub)", "clock (synctest) - file mtimes are set explicitly"},
+		Rule: "episode = one app.FS handler (AcceptByteRange on/off, IndexNames, GenerateIndexPages, strip-prefix rewrite, CacheDuration 20ms..1s; in a third of the episodes a private writable tree with Compress on/off) plus a ctx.File route over a directory tree with files of length 0,1,2,10,4095,4096,4097,8191,8192,8193,24576 (small/big-file threshold), a directory whose generated listing exceeds the small-file threshold, and bait files outside the root; 2..5 simulated connections, each 1..4 GET/HEAD requests with Range from the whole syntactic family (a-b, a-, -n, -0, empty, reversed, beyond EOF, overflowing, non-numeric, multi-range), If-Modified-Since, Accept-Encoding: gzip, traversal attempts, directory requests; the scheduler interleaves all connections on the shared file caches, stalls a reader of a streamed big-file response for longer than CacheDuration (the cleaner runs while the reader is open), lets the fake clock cross the cache deadline between requests, requests the same big file concurrently with different ranges, resets a client mid-body, and (disk fault) replaces files under the running server with new content and a newer or older modification time; after the last replacement plus 2 x CacheDuration every connection sends one more request that must see exactly the final file. Oracle: RFC 7233 single-range model over the known file bytes (after gunzip when the response is gzip-coded, which is only allowed when asked for, with Compress, on a whole-file answer), Last-Modified of the final version, generated listings name every entry. Non-trivial: >= 2 connections with overlapping requests or a stall/reset fired; distinct = abstract signature (file class, range class, method, config, fault).",
+		Real: []string{"app.FS / fsHandler.handleRequest, openFSFile, compressAndOpenFSFile (.hertz.gz siblings), createDirIndex, both caches + cleaner goroutine, fsSmallFileReader, bigFileReader (reader reuse), ParseByteRange, ServeFile", "ResponseHeader.SetContentRange", "http1.Server.Serve, resp.Write/writeBodyStream", "standard.Conn", "operating-system files (real directory trees, modification times set explicitly)"},
+		Stub: []string{"TCP (SimConn)", "peers (scripted actors)", "transporter accept loop (stub)", "clock (synctest) - file mtimes are set explicitly", "stackless worker pool (hook H4: the gzip writer's function runs on the calling goroutine)"},
 		Assumptions: []string{
-			"disk is the real file system without fault injection (fs.go calls os.Open directly; no seam)",
-			"Compress is left off (compressed responses would need a gzip oracle; the uncompressed cache and readers are the shared state under test)",
+			"disk is the real file system; the only disk fault is whole-file replacement (write + rename) between or during requests; fs.go calls os.Open directly, so I/O errors cannot be injected",
+			"a file replaced while requests for it are in progress is outside the property: after a replacement only the request sent once everything settled is judged strictly (earlier ones: no crash, nothing from outside the root)",
 			"ctx.File serves through a process-global FS instance; to keep episodes independent the same handler is exercised through ctx.FileFromFS with an identically configured per-episode FS",
 			"for syntactically invalid or multi-range Range headers any RFC-permitted answer is accepted (full 200, 206 of the first range, 416)",
 		},
-		RequiredProbes: []string{"range-closed", "range-open", "range-suffix", "range-unsatisfiable", "range-invalid", "range-multi", "empty-file", "big-file", "small-file", "head", "ims-304", "traversal", "index-file", "concurrent-same-file", "reader-stall", "client-rst", "cache-expired", "ctx-file-route", "dir-listing"},
+		RequiredProbes: []string{"range-closed", "range-open", "range-suffix", "range-unsatisfiable", "range-invalid", "range-multi", "empty-file", "big-file", "small-file", "head", "ims-304", "traversal", "index-file", "concurrent-same-file", "reader-stall", "client-rst", "cache-expired", "ctx-file-route", "dir-listing", "dir-listing-big", "compress-on", "gzip-response", "final-request", "file-modified-older", "file-modified-newer"},
 	}
 }
 
@@ -38,27 +40,59 @@ var (
 	c08Root  string
 	c08Files = map[string][]byte{}
 	c08MTime = time.Date(1999, 12, 1, 0, 0, 0, 0, time.UTC)
+	// names in each directory without an index file (for the generated listings)
+	c08DirEntries = map[string][]string{}
 )
+
+const c08ManyCount = 120
 
 // c08LoadFiles fills the content table without touching the disk.
 func c08LoadFiles() {
 	for _, n := range []int{0, 1, 2, 10, 4095, 4096, 4097, 8191, 8192, 8193, 24576} {
 		c08Files[fmt.Sprintf("/f%d.bin", n)] = core.PatternBytes(byte(n%250), n)
+		c08DirEntries[""] = append(c08DirEntries[""], fmt.Sprintf("f%d.bin", n))
 	}
 	c08Files["/dir/index.html"] = []byte("<html>dir index</html>")
 	c08Files["/noindex/x.txt"] = []byte("xx")
+	c08DirEntries[""] = append(c08DirEntries[""], "dir", "noindex", "many")
+	c08DirEntries["/noindex"] = []string{"x.txt"}
+	for i := 0; i < c08ManyCount; i++ {
+		// a listing of this directory is larger than the small-file threshold
+		name := fmt.Sprintf("entry-with-a-rather-long-file-name-%03d.txt", i)
+		c08Files["/many/"+name] = []byte{byte('a' + i%26)}
+		c08DirEntries["/many"] = append(c08DirEntries["/many"], name)
+	}
 }
 
 const c08Bait = "SECRET-OUTSIDE-ROOT-c0ffee"
 
+// c08WriteTree writes the whole tree under d (d/root is the served root, bait files sit next to it).
+func c08WriteTree(d string) {
+	root := filepath.Join(d, "root")
+	for _, sub := range []string{"dir", "noindex", "many"} {
+		os.MkdirAll(filepath.Join(root, sub), 0o755)
+	}
+	for name, b := range c08Files {
+		os.WriteFile(filepath.Join(root, name), b, 0o644)
+	}
+	os.WriteFile(filepath.Join(d, "secret.txt"), []byte(c08Bait), 0o644)
+	os.WriteFile(filepath.Join(d, "rootsecret.txt"), []byte(c08Bait), 0o644)
+	filepath.Walk(d, func(p string, info os.FileInfo, err error) error {
+		if err == nil {
+			os.Chtimes(p, c08MTime, c08MTime)
+		}
+		return nil
+	})
+}
+
 func c08Tree() string {
 	c08Once.Do(func() {
+		c08LoadFiles()
 		// one read-only tree shared by all worker processes, at a fixed path so that
 		// messages that mention file names are identical in every process
-		final := "/verif/.scratch/tree-c08-v1"
+		final := "/verif/.scratch/tree-c08-v2"
+		c08Root = filepath.Join(final, "root")
 		if _, err := os.Stat(filepath.Join(final, "ready")); err == nil {
-			c08LoadFiles()
-			c08Root = filepath.Join(final, "root")
 			return
 		}
 		os.MkdirAll("/verif/.scratch", 0o755)
@@ -66,34 +100,56 @@ func c08Tree() string {
 		if err != nil {
 			panic("harness: " + err.Error())
 		}
-		root := filepath.Join(d, "root")
-		os.MkdirAll(filepath.Join(root, "dir"), 0o755)
-		os.MkdirAll(filepath.Join(root, "noindex"), 0o755)
-		for _, n := range []int{0, 1, 2, 10, 4095, 4096, 4097, 8191, 8192, 8193, 24576} {
-			name := fmt.Sprintf("f%d.bin", n)
-			b := core.PatternBytes(byte(n%250), n)
-			c08Files["/"+name] = b
-			os.WriteFile(filepath.Join(root, name), b, 0o644)
-		}
-		c08Files["/dir/index.html"] = []byte("<html>dir index</html>")
-		os.WriteFile(filepath.Join(root, "dir", "index.html"), c08Files["/dir/index.html"], 0o644)
-		c08Files["/noindex/x.txt"] = []byte("xx")
-		os.WriteFile(filepath.Join(root, "noindex", "x.txt"), c08Files["/noindex/x.txt"], 0o644)
-		os.WriteFile(filepath.Join(d, "secret.txt"), []byte(c08Bait), 0o644)
-		os.WriteFile(filepath.Join(d, "rootsecret.txt"), []byte(c08Bait), 0o644)
-		filepath.Walk(d, func(p string, info os.FileInfo, err error) error {
-			if err == nil {
-				os.Chtimes(p, c08MTime, c08MTime)
-			}
-			return nil
-		})
+		c08WriteTree(d)
 		os.WriteFile(filepath.Join(d, "ready"), []byte("1"), 0o644)
 		if err := os.Rename(d, final); err != nil {
 			os.RemoveAll(d) // another process won the race
 		}
-		c08Root = filepath.Join(final, "root")
 	})
 	return c08Root
+}
+
+// ---- the private, writable tree of this worker process (episodes with Compress or file modifications) ----
+
+var (
+	c08PrivDir   string
+	c08PrivDirty = map[string]bool{}
+)
+
+// c08PrivateTree returns the root of a tree only this process uses, restored to the pristine state:
+// compressed siblings hertz created are removed, files an earlier episode modified are rewritten.
+func c08PrivateTree() string {
+	c08Tree()
+	if c08PrivDir == "" {
+		base := "/verif/.scratch"
+		if o := os.Getenv("VSIM_OUT"); o != "" {
+			base = filepath.Dir(o) // the driver's scratch directory: removed when the check ends
+		}
+		c08PrivDir = filepath.Join(base, fmt.Sprintf("c08w-%d", os.Getpid()))
+		os.RemoveAll(c08PrivDir)
+		c08WriteTree(c08PrivDir)
+		return filepath.Join(c08PrivDir, "root")
+	}
+	root := filepath.Join(c08PrivDir, "root")
+	filepath.Walk(root, func(p string, info os.FileInfo, err error) error {
+		if err == nil && !info.IsDir() && (strings.HasSuffix(p, ".hertz.gz") || strings.HasSuffix(p, ".tmp") || strings.HasSuffix(p, ".new")) {
+			os.Remove(p)
+		}
+		return nil
+	})
+	for name := range c08PrivDirty {
+		p := filepath.Join(root, name)
+		os.WriteFile(p, c08Files[name], 0o644)
+		os.Chtimes(p, c08MTime, c08MTime)
+		delete(c08PrivDirty, name)
+	}
+	return root
+}
+
+// c08ver is one version of a file's content.
+type c08ver struct {
+	data  []byte
+	mtime time.Time
 }
 
 type c08req struct {
@@ -105,6 +161,9 @@ type c08req struct {
 	kind    string // range class
 	travers bool
 	dirlist bool
+	dir     string // directory key into c08DirEntries for dirlist requests
+	gzip    bool   // the request carries Accept-Encoding: gzip
+	final   bool   // sent after every modification settled: exactly the current version must be served
 }
 
 type rangeModel struct {
@@ -204,12 +263,29 @@ func RunC08(ep *core.Episode) {
 	tp := ep.Tape
 	S := ep.S
 	root := c08Tree()
+	// mutable episodes: Compress writes .hertz.gz siblings and files change under the running server,
+	// so they get this process's private tree; everything else shares the read-only one
+	mutable := ep.Param("mutable") != "off" && tp.Chance("mutable", 1, 3)
+	compress := false
+	if mutable {
+		root = c08PrivateTree()
+		compress = tp.Chance("compress", 2, 3)
+		ep.Probe("mutable-tree")
+		if compress {
+			ep.Probe("compress-on")
+		}
+	}
+	// version history per file (immutable episodes: the one version)
+	versions := map[string][]c08ver{}
+	for name, b := range c08Files {
+		versions[name] = []c08ver{{data: b, mtime: c08MTime}}
+	}
 	nw := core.NewNet(ep)
 	srv := NewSrv(ep, nw, SrvOpts{BufSize: 4096, IdleTimeout: 60 * time.Second})
 	accept := tp.Chance("acceptrange", 3, 4)
 	cacheDur := tp.PickDur("cachedur", 20*time.Millisecond, 100*time.Millisecond, time.Second)
 	genIdx := tp.Choose("genidx", 2) == 1
-	fs := &app.FS{Root: root, AcceptByteRange: accept, IndexNames: []string{"index.html"}, GenerateIndexPages: genIdx, Compress: false, CacheDuration: cacheDur,
+	fs := &app.FS{Root: root, AcceptByteRange: accept, IndexNames: []string{"index.html"}, GenerateIndexPages: genIdx, Compress: compress, CacheDuration: cacheDur,
 		PathRewrite: app.NewPathSlashesStripper(1)}
 	h := fs.NewRequestHandler()
 	ep.LeakedGoroutines++
@@ -229,20 +305,35 @@ func RunC08(ep *core.Episode) {
 
 	nconn := 2 + tp.Choose("nconn", 4)
 	type cst struct {
-		sc    *SrvConn
-		cl    *Client
-		reqs  []*c08req
-		rst   bool
-		stall bool
+		sc     *SrvConn
+		cl     *Client
+		reqs   []*c08req
+		rst    bool
+		stall  bool
+		phase1 int // requests of the first phase
 	}
 	var conns []*cst
 	sameBig := tp.Chance("samebig", 1, 3)
+	names := []string{"/f0.bin", "/f1.bin", "/f2.bin", "/f10.bin", "/f4095.bin", "/f4096.bin", "/f4097.bin", "/f8191.bin", "/f8192.bin", "/f8193.bin", "/f24576.bin", "/dir/index.html", "/noindex/x.txt", "/many/entry-with-a-rather-long-file-name-007.txt"}
+	encode := func(r *c08req) []byte {
+		m := &wire.Msg{Proto: "HTTP/1.1", Method: r.method, Target: r.path, NoFraming: true, Headers: []wire.Header{{K: "Host", V: "h"}}}
+		if r.rng != "" {
+			m.Headers = append(m.Headers, wire.Header{K: "Range", V: r.rng})
+		}
+		if r.ims != "" {
+			m.Headers = append(m.Headers, wire.Header{K: "If-Modified-Since", V: r.ims})
+		}
+		if r.gzip {
+			m.Headers = append(m.Headers, wire.Header{K: "Accept-Encoding", V: "gzip"})
+		}
+		data, _ := m.Encode()
+		return data
+	}
 	for ci := 0; ci < nconn; ci++ {
 		sc := srv.Connect(fmt.Sprintf("c%d", ci))
 		cl := NewClient(ep, sc)
 		c := &cst{sc: sc, cl: cl}
 		nreq := 1 + tp.Choose("nreq", 4)
-		names := []string{"/f0.bin", "/f1.bin", "/f2.bin", "/f10.bin", "/f4095.bin", "/f4096.bin", "/f4097.bin", "/f8191.bin", "/f8192.bin", "/f8193.bin", "/f24576.bin", "/dir/index.html", "/noindex/x.txt"}
 		for k := 0; k < nreq; k++ {
 			r := &c08req{method: "GET"}
 			if tp.Chance("head", 1, 5) {
@@ -260,12 +351,21 @@ func RunC08(ep *core.Episode) {
 			if r.kind != "none" {
 				ep.Probe(r.kind)
 			}
-			switch tp.Weighted("variant", []int{12, 2, 2, 2, 2, 1}) {
-			case 5: // a directory without an index file: generated listing or 403, never a crash or a leak
-				r.path = []string{"/static/noindex/", "/static/noindex", "/static/", "/static"}[tp.Choose("dirpath", 4)]
+			if mutable && tp.Chance("acceptgzip", 1, 2) {
+				r.gzip = true
+				ep.Probe("accept-gzip")
+			}
+			switch tp.Weighted("variant", []int{12, 2, 2, 2, 2, 2}) {
+			case 5: // a directory without an index file: the generated listing or 403, never a crash or a leak
+				d := tp.Choose("dirpath", 6)
+				r.path = []string{"/static/noindex/", "/static/noindex", "/static/", "/static", "/static/many/", "/static/many"}[d]
+				r.dir = []string{"/noindex", "/noindex", "", "", "/many", "/many"}[d]
 				r.file = ""
 				r.dirlist = true
 				ep.Probe("dir-listing")
+				if r.dir == "/many" {
+					ep.Probe("dir-listing-big")
+				}
 			case 1: // traversal attempts: must never leave the root
 				r.path = []string{"/static/../secret.txt", "/static/%2e%2e/secret.txt", "/static/..%2fsecret.txt", "/static//../rootsecret.txt", "/static/dir/../../secret.txt", "/static/./../secret.txt", "/file/..%2fsecret.txt", "/static/%2e%2e%2f%2e%2e%2fsecret.txt"}[tp.Choose("trav", 8)]
 				r.file = ""
@@ -276,7 +376,9 @@ func RunC08(ep *core.Episode) {
 				r.file = "/dir/index.html"
 				ep.Probe("index-file")
 			case 3: // If-Modified-Since at / after the modification time
-				r.ims = c08MTime.Add(time.Duration(tp.Choose("imsd", 2)) * time.Hour).Format("Mon, 02 Jan 2006 15:04:05 GMT")
+				if !mutable {
+					r.ims = c08MTime.Add(time.Duration(tp.Choose("imsd", 2)) * time.Hour).Format("Mon, 02 Jan 2006 15:04:05 GMT")
+				}
 			case 4: // the ctx.File route
 				if !strings.Contains(r.file[1:], "/") {
 					r.path = "/file" + r.file
@@ -293,14 +395,6 @@ func RunC08(ep *core.Episode) {
 					ep.Probe("small-file")
 				}
 			}
-			m := &wire.Msg{Proto: "HTTP/1.1", Method: r.method, Target: r.path, NoFraming: true, Headers: []wire.Header{{K: "Host", V: "h"}}}
-			if r.rng != "" {
-				m.Headers = append(m.Headers, wire.Header{K: "Range", V: r.rng})
-			}
-			if r.ims != "" {
-				m.Headers = append(m.Headers, wire.Header{K: "If-Modified-Since", V: r.ims})
-			}
-			data, _ := m.Encode()
 			delay := time.Duration(0)
 			if tp.Chance("clockjump", 1, 5) {
 				delay = cacheDur + time.Millisecond // the cache entry expires between requests
@@ -308,9 +402,10 @@ func RunC08(ep *core.Episode) {
 			}
 			c.reqs = append(c.reqs, r)
 			cl.Methods = append(cl.Methods, r.method)
-			cl.Sends = append(cl.Sends, Send{Data: data, AfterResps: k, Delay: delay, Label: "req"})
-			ep.Sig(fmt.Sprintf("r:%s:%s:%s:%v", r.method, core.BucketSize(len(c08Files[r.file])), r.kind, r.travers))
+			cl.Sends = append(cl.Sends, Send{Data: encode(r), AfterResps: k, Delay: delay, Label: "req"})
+			ep.Sig(fmt.Sprintf("r:%s:%s:%s:%v:%v", r.method, core.BucketSize(len(c08Files[r.file])), r.kind, r.travers, r.gzip))
 		}
+		c.phase1 = nreq
 		// faults on this connection
 		switch tp.Weighted("cfault", []int{6, 2, 2}) {
 		case 1: // stalled reader: the peer accepts the response slowly, longer than the cache duration
@@ -319,7 +414,28 @@ func RunC08(ep *core.Episode) {
 		case 2: // the client resets after part of a response
 			c.rst = true
 		}
+		if mutable && !c.rst {
+			// second phase (filled in below once the first is over): one request that must see the final state
+			cl.Methods = append(cl.Methods, "GET")
+		}
 		conns = append(conns, c)
+	}
+	// ---- files change under the running server (mutable episodes) ----
+	modTargets := []string{"/f10.bin", "/f4097.bin", "/f8193.bin", "/f24576.bin", "/dir/index.html"}
+	maxMods := 0
+	if mutable {
+		maxMods = tp.Choose("nmods", 4)
+	}
+	mods := 0
+	phase2 := false
+	phase1Over := func() bool {
+		for _, c := range conns {
+			c.cl.Parse() // this source may be asked before the client actor has looked at what arrived
+			if !c.sc.Task.Done && !c.sc.B.IsClosed() && len(c.cl.Resps) < c.phase1 {
+				return false
+			}
+		}
+		return true
 	}
 	// stalled readers accept bytes late; resets fire once part of a response arrived
 	S.AddSource(core.SourceFunc(func(add func(core.Event)) {
@@ -346,6 +462,64 @@ func RunC08(ep *core.Episode) {
 				}
 			}
 		}
+		if !mutable || phase2 {
+			return
+		}
+		if !phase1Over() {
+			if mods < maxMods {
+				add(core.Event{Key: "fs-modify", Weight: 3, Apply: func() {
+					mods++
+					name := modTargets[tp.Choose("modfile", len(modTargets))]
+					cur := versions[name]
+					n := len(cur[0].data)
+					switch tp.Choose("modsize", 4) {
+					case 1:
+						n++
+					case 2:
+						n = 10 + mods
+					case 3:
+						n = 9000 + mods
+					}
+					// a modification time never used for this file before; older than the previous one in half of the cases
+					hrs := time.Duration(len(cur)*2+1) * time.Hour
+					kind := "file-modified-newer"
+					if tp.Choose("modolder", 2) == 1 {
+						hrs = -hrs
+						kind = "file-modified-older"
+					}
+					v := c08ver{data: core.PatternBytes(byte(37*len(cur)+n%200), n), mtime: c08MTime.Add(hrs)}
+					pth := filepath.Join(root, name)
+					os.WriteFile(pth+".new", v.data, 0o644)
+					os.Chtimes(pth+".new", v.mtime, v.mtime)
+					os.Rename(pth+".new", pth)
+					c08PrivDirty[name] = true
+					versions[name] = append(cur, v)
+					ep.Fault(kind)
+					ep.Logf("fs: %s replaced by version %d (%dB, mtime %+v h)", name, len(cur), n, hrs.Hours())
+				}})
+			}
+			return
+		}
+		// first phase over: no more modifications. After the longest time a cache entry can survive
+		// (CacheDuration plus one cleaner period), every connection asks once more.
+		phase2 = true
+		settle := 2*cacheDur + 5*time.Millisecond
+		for _, c := range conns {
+			if c.rst || c.sc.Task.Done || c.sc.B.IsClosed() {
+				continue
+			}
+			r := &c08req{method: "GET", final: true}
+			r.file = modTargets[tp.Choose("finalfile", len(modTargets))]
+			r.path = "/static" + r.file
+			r.gzip = tp.Choose("finalgzip", 2) == 1
+			if tp.Choose("finalrange", 3) == 1 {
+				r.rng, r.kind = "bytes=1-", "range-open"
+			}
+			c.reqs = append(c.reqs, r)
+			c.cl.Sends = append(c.cl.Sends, Send{Data: encode(r), AfterResps: c.phase1, Delay: settle, Label: "final"})
+			ep.Probe("final-request")
+		}
+		S.Poke() // the client actors may already have been asked in this round
 	}))
 	S.PassTimeWeight = 2
 	S.Quanta = []time.Duration{time.Millisecond, cacheDur/2 + time.Millisecond, cacheDur + time.Millisecond}
@@ -375,6 +549,15 @@ func RunC08(ep *core.Episode) {
 		return
 	}
 	// ---- oracle: every complete response equals the model ----
+	cfg := c08cfg{accept: accept, genIdx: genIdx, compress: compress}
+	// A file replaced while requests for it are in progress is outside the property (hertz pairs the
+	// cached length with whatever a re-opened reader finds, and ends the connection on the mismatch):
+	// once a modification happened, first-phase responses are only checked for what can never be
+	// right (bytes from outside the root, a crash); the request sent after everything settled is judged strictly.
+	lenient := mods > 0
+	if lenient {
+		ep.Probe("modified-under-load")
+	}
 	for _, c := range conns {
 		c.sc.B.AcceptFromWriter(c.sc.B.InflightTo())
 		c.cl.Parse()
@@ -382,7 +565,7 @@ func RunC08(ep *core.Episode) {
 			ep.Fail("C08.root", "connection %s received bytes of a file outside the root", c.sc.Name)
 			return
 		}
-		if c.cl.ParseErr != nil && !c.rst {
+		if c.cl.ParseErr != nil && !c.rst && !lenient {
 			ep.Fail("C08.headers", "connection %s: response %d is not well-formed: %v", c.sc.Name, len(c.cl.Resps), c.cl.ParseErr)
 			return
 		}
@@ -390,11 +573,19 @@ func RunC08(ep *core.Episode) {
 			if i >= len(c.reqs) {
 				break
 			}
-			if !c08CheckResp(ep, c.sc.Name, i, c.reqs[i], m, accept) {
+			r := c.reqs[i]
+			if lenient && !r.final && !r.travers {
+				continue
+			}
+			cands := versions[r.file]
+			if r.final && len(cands) > 0 {
+				cands = cands[len(cands)-1:]
+			}
+			if !c08CheckResp(ep, c.sc.Name, i, r, m, cfg, cands) {
 				return
 			}
 		}
-		if !c.rst && len(c.cl.Resps) != len(c.reqs) {
+		if !c.rst && !lenient && len(c.cl.Resps) != len(c.reqs) {
 			ep.Fail("C08.body", "connection %s: %d responses for %d requests (leftover %dB, serve err %v)", c.sc.Name, len(c.cl.Resps), len(c.reqs), len(c.cl.Leftover()), c.sc.Err)
 			return
 		}
@@ -403,17 +594,48 @@ func RunC08(ep *core.Episode) {
 	var ds []string
 	for _, c := range conns {
 		for _, r := range c.reqs {
-			ds = append(ds, fmt.Sprintf("%s %s %s range=%q ims=%v", c.sc.Name, r.method, r.path, r.rng, r.ims != ""))
+			ds = append(ds, fmt.Sprintf("%s %s %s range=%q ims=%v gzip=%v", c.sc.Name, r.method, r.path, r.rng, r.ims != "", r.gzip))
 		}
 	}
 	if len(ds) > 8 {
 		ds = ds[:8]
 	}
-	ep.Sample = map[string]interface{}{"connections": nconn, "requests": ds, "accept_byte_range": accept, "cache_duration": cacheDur.String(), "faults": fmt.Sprint(ep.Faults)}
+	ep.Sample = map[string]interface{}{"connections": nconn, "requests": ds, "accept_byte_range": accept, "compress": compress, "file_modifications": mods, "cache_duration": cacheDur.String(), "faults": fmt.Sprint(ep.Faults)}
 }
 
-func c08CheckResp(ep *core.Episode, conn string, i int, r *c08req, m *wire.Msg, accept bool) bool {
-	where := fmt.Sprintf("connection %s response %d (%s %s range=%q)", conn, i, r.method, r.path, r.rng)
+type c08cfg struct{ accept, genIdx, compress bool }
+
+// c08CheckResp: the response is right for at least one acceptable version of the file.
+func c08CheckResp(ep *core.Episode, conn string, i int, r *c08req, m *wire.Msg, cfg c08cfg, cands []c08ver) bool {
+	where := fmt.Sprintf("connection %s response %d (%s %s range=%q gzip=%v final=%v)", conn, i, r.method, r.path, r.rng, r.gzip, r.final)
+	head := r.method == "HEAD"
+	// content coding: only when asked for, only with Compress, never on a partial response
+	body := m.Body
+	gz := false
+	if ce, ok := m.Get("Content-Encoding"); ok {
+		if ce != "gzip" || !r.gzip || !(cfg.compress || strings.HasPrefix(r.path, "/file")) {
+			ep.Fail("C08.headers", "%s: Content-Encoding %q (Accept-Encoding gzip sent: %v, Compress: %v)", where, ce, r.gzip, cfg.compress)
+			return false
+		}
+		if m.Status == 206 {
+			ep.Fail("C08.headers", "%s: a 206 response is gzip-coded (byte ranges select bytes of the file itself)", where)
+			return false
+		}
+		gz = true
+		ep.Probe("gzip-response")
+		if !head && m.Status == 200 {
+			zr, err := gzip.NewReader(bytes.NewReader(body))
+			var plain []byte
+			if err == nil {
+				plain, err = io.ReadAll(zr)
+			}
+			if err != nil {
+				ep.Fail("C08.body", "%s: body (%dB) is labelled gzip but does not decode: %v", where, len(body), err)
+				return false
+			}
+			body = plain
+		}
+	}
 	if r.travers {
 		if m.Status == 200 || m.Status == 206 {
 			ep.Fail("C08.root", "%s: traversal attempt answered with %d and %d body bytes", where, m.Status, len(m.Body))
@@ -422,18 +644,50 @@ func c08CheckResp(ep *core.Episode, conn string, i int, r *c08req, m *wire.Msg, 
 		return true
 	}
 	if r.dirlist {
-		// generated content: only its shape is judged (a listing or a refusal, decoded as well-formed HTTP by the client)
-		if m.Status >= 500 || m.Status < 200 {
-			ep.Fail("C08.headers", "%s: directory request answered with %d", where, m.Status)
+		// generated content: a listing naming every entry, or a refusal when listings are off
+		if r.path == "/static" {
+			// not under the file handler's route: the router redirects to "/static/"
+			if m.Status/100 != 3 {
+				ep.Fail("C08.headers", "%s: answered with %d, want the router's redirect", where, m.Status)
+				return false
+			}
+			return true
+		}
+		if !cfg.genIdx {
+			if m.Status != 403 {
+				ep.Fail("C08.headers", "%s: directory without index file and GenerateIndexPages off answered with %d, want 403", where, m.Status)
+				return false
+			}
+			return true
+		}
+		if m.Status == 416 && r.rng != "" && cfg.accept {
+			return true
+		}
+		if m.Status != 200 && !(m.Status == 206 && r.rng != "" && cfg.accept) {
+			ep.Fail("C08.headers", "%s: directory listing request answered with %d", where, m.Status)
+			return false
+		}
+		if m.Status == 200 && !head {
+			for _, name := range c08DirEntries[r.dir] {
+				if !bytes.Contains(body, []byte(">"+name+"<")) {
+					ep.Fail("C08.body", "%s: the generated listing (%dB) does not name %q", where, len(body), name)
+					return false
+				}
+			}
+			if !bytes.HasSuffix(body, []byte("</ul></body></html>")) {
+				ep.Fail("C08.body", "%s: the generated listing (%dB) is truncated", where, len(body))
+				return false
+			}
+		}
+		if head && len(m.Body) != 0 {
+			ep.Fail("C08.head", "%s: HEAD response carries %d body bytes", where, len(m.Body))
 			return false
 		}
 		return true
 	}
-	file, ok := c08Files[r.file]
-	if !ok {
+	if len(cands) == 0 {
 		return true
 	}
-	n := len(file)
 	if r.ims != "" {
 		if m.Status != 304 {
 			ep.Fail("C08.headers", "%s: If-Modified-Since at/after the modification time answered with %d", where, m.Status)
@@ -442,59 +696,78 @@ func c08CheckResp(ep *core.Episode, conn string, i int, r *c08req, m *wire.Msg, 
 		ep.Probe("ims-304")
 		return true
 	}
-	useRange := accept && strings.HasPrefix(r.path, "/static")
+	useRange := cfg.accept && strings.HasPrefix(r.path, "/static")
 	if strings.HasPrefix(r.path, "/file") {
 		useRange = true // ServeFile's handler accepts byte ranges
 	}
+	if head && len(m.Body) != 0 {
+		ep.Fail("C08.head", "%s: HEAD response carries %d body bytes", where, len(m.Body))
+		return false
+	}
+	// newest version first: its verdict is the one reported when no version fits
+	var firstOracle, firstMsg string
+	for k := len(cands) - 1; k >= 0; k-- {
+		oracle, msg := c08Match(r, m, body, gz, head, useRange, cands[k], r.final)
+		if oracle == "" {
+			if k != len(cands)-1 {
+				ep.Probe("served-older-version")
+			}
+			return true
+		}
+		if firstOracle == "" {
+			firstOracle, firstMsg = oracle, msg
+		}
+	}
+	if len(cands) > 1 {
+		firstMsg += fmt.Sprintf(" (nor does it fit any of the %d earlier versions)", len(cands)-1)
+	}
+	ep.Fail(firstOracle, "%s: %s", where, firstMsg)
+	return false
+}
+
+// c08Match judges one response against one version of the file; "" means it fits.
+func c08Match(r *c08req, m *wire.Msg, body []byte, gz, head, useRange bool, v c08ver, strictMTime bool) (string, string) {
+	file := v.data
+	n := len(file)
 	md := modelRange(r.rng, n, useRange)
-	body := m.Body
-	head := r.method == "HEAD"
 	clh, _ := m.Get("Content-Length")
+	if lm, ok := m.Get("Last-Modified"); ok && strictMTime && m.Status/100 == 2 {
+		if want := v.mtime.UTC().Format("Mon, 02 Jan 2006 15:04:05 GMT"); lm != want {
+			return "C08.headers", fmt.Sprintf("Last-Modified %q, the file's modification time is %q", lm, want)
+		}
+	}
 	switch m.Status {
 	case 200:
-		if !md.full {
-			ep.Fail("C08.headers", "%s: answered 200 with the whole file, the range selects %v (unsatisfiable=%v)", where, md.part, md.unsat)
-			return false
+		if !md.full && !(gz && r.rng != "") {
+			return "C08.headers", fmt.Sprintf("answered 200 with the whole file, the range selects %v (unsatisfiable=%v)", md.part, md.unsat)
 		}
-		if clh != strconv.Itoa(n) {
-			ep.Fail("C08.headers", "%s: Content-Length %q for a %d-byte file", where, clh, n)
-			return false
+		if !gz && clh != strconv.Itoa(n) {
+			return "C08.headers", fmt.Sprintf("Content-Length %q for a %d-byte file", clh, n)
 		}
 		if !head && !bytes.Equal(body, file) {
-			ep.Fail("C08.body", "%s: body %dB differs from the %d-byte file (first difference at %d)", where, len(body), n, firstDiff(body, file))
-			return false
+			return "C08.body", fmt.Sprintf("body %dB differs from the %d-byte file (first difference at %d)", len(body), n, firstDiff(body, file))
 		}
 	case 206:
 		if len(md.part) == 0 {
-			ep.Fail("C08.headers", "%s: answered 206, acceptable: full=%v unsatisfiable=%v", where, md.full, md.unsat)
-			return false
+			return "C08.headers", fmt.Sprintf("answered 206, acceptable: full=%v unsatisfiable=%v", md.full, md.unsat)
 		}
 		s, e := md.part[0][0], md.part[0][1]
 		wantCR := fmt.Sprintf("bytes %d-%d/%d", s, e, n)
 		if cr, _ := m.Get("Content-Range"); cr != wantCR {
-			ep.Fail("C08.headers", "%s: Content-Range %q, want %q", where, cr, wantCR)
-			return false
+			return "C08.headers", fmt.Sprintf("Content-Range %q, want %q", cr, wantCR)
 		}
 		if clh != strconv.Itoa(e-s+1) {
-			ep.Fail("C08.headers", "%s: Content-Length %q for range %d-%d", where, clh, s, e)
-			return false
+			return "C08.headers", fmt.Sprintf("Content-Length %q for range %d-%d", clh, s, e)
 		}
 		if !head && !bytes.Equal(body, file[s:e+1]) {
-			ep.Fail("C08.body", "%s: body %dB is not bytes %d-%d of the file (first difference at %d)", where, len(body), s, e, firstDiff(body, file[s:e+1]))
-			return false
+			return "C08.body", fmt.Sprintf("body %dB is not bytes %d-%d of the file (first difference at %d)", len(body), s, e, firstDiff(body, file[s:e+1]))
 		}
 	case 416:
 		if !md.unsat {
-			ep.Fail("C08.headers", "%s: answered 416, but the range is satisfiable: %v", where, md.part)
-			return false
+			return "C08.headers", fmt.Sprintf("answered 416, but the range is satisfiable: %v", md.part)
 		}
 	default:
-		ep.Fail("C08.headers", "%s: unexpected status %d", where, m.Status)
-		return false
+		return "C08.headers", fmt.Sprintf("unexpected status %d", m.Status)
 	}
-	if head && len(body) != 0 {
-		ep.Fail("C08.head", "%s: HEAD response carries %d body bytes", where, len(body))
-		return false
-	}
-	return true
+	return "", ""
 }
